@@ -3,6 +3,7 @@ import BtcModel.Model.Tree
 import BtcModel.Model.Watchdog
 import Driver.Canister
 import Driver.Transform
+import BtcModel.Model.TxCodec
 import BtcModel.Model.Endpoints
 
 open Btc
@@ -23,6 +24,9 @@ structure DState where
   /-- C11 stream: synthetic header store (height, header) and its network -/
   hdrStore : List (Nat × Header.Hdr) := []
   hdrNet : Tree.Net := .regtest
+  /-- C03: the chain served before the last ingestion opportunity, and how many anchors it popped -/
+  servedBefore : List Nat := []
+  lastPopped : Nat := 0
 
 def statusCode : Watchdog.Status → Nat
   | .notEnoughData => 0 | .ok => 1 | .ahead => 2 | .behind => 3
@@ -186,8 +190,11 @@ def stepCanister (d : DState) (ws : List String) : DState × String :=
   | ["call", ep, net, avail, ins, tok, cc, start], some s =>
     let (s', text, acc) := endpointCall d s ep (parseNet net) avail.toNat! ins.toNat! (parseAddrArg tok) cc.toNat! start.toNat!
     ({ d with st := some s' }, s!"{text} accepted={acc} unchanged=1")
-  | ["sendtx", net, avail, len, wf], some s =>
-    match s.callSendTransaction (envOf d) (parseNet net) avail.toNat! len.toNat! (wf == "wellformed=1") with
+  | ["sendtx", net, avail, payload], some s =>
+    let bytes := if payload == "-" then [] else hexToBytes payload
+    -- well-formedness decided by the model's own consensus decoder (64-bit `usize`: native harness)
+    let wf := (Btc.TxCodec.decodeExact bytes).isSome
+    match s.callSendTransaction (envOf d) (parseNet net) avail.toNat! bytes.length wf with
     | .trap t => (d, s!"{showTrap t} accepted=0 counted=0 forwarded=none")
     | .answered true acc s' => ({ d with st := some s' }, s!"ok accepted={acc} counted=1 forwarded={net}:same")
     | .answered false acc _ => (d, s!"err MalformedTransaction accepted={acc} counted=0 forwarded=none")
@@ -207,12 +214,22 @@ def stepCanister (d : DState) (ws : List String) : DState × String :=
       let popped := match Tree.chainWithTip CBlock.hash s'.unstable.tree.root.hash s.unstable.tree with
         | some (p, _) => (p.dropLast).map (·.blk)
         | none => []
-      ({ d with st := some s', ghost := d.ghost ++ popped }, o)
+      ({ d with st := some s', ghost := d.ghost ++ popped,
+                servedBefore := s.unstable.mainChain.map CBlock.hash,
+                lastPopped := s'.utxos.nextHeight - s.utxos.nextHeight }, o)
     match s.ingestStable testnetBound budget.toNat! with
     | .trap _ => (d, "trap")
     | .paused s' => finish s' "paused"
     | .done s' true => finish s' "done1"
     | .done s' false => finish s' "done0"
+  | ["advance"], some s =>
+    let k := d.lastPopped
+    let onchain := d.servedBefore[k]? == some s.unstable.tree.root.hash
+    let pending := (Unstable.stableChildIdx testnetBound s.unstable).isSome && !s.utxos.ingesting.isSome
+    let b (x : Bool) : Nat := if x then 1 else 0
+    -- specification (C03): the new anchor lies on the chain that was being served and, after an
+    -- un-paused ingestion opportunity, no advance is withheld
+    (d, s!"popped={k} onchain={b onchain} pending={b pending} ## popped={k} onchain=1 pending=0")
   | ["q", "info"], some s => (d, showInfo s.blockchainInfo)
   | ["q", "utxos", tok, filter, lim], some s =>
     if (s.guard (envOf d) s.network true).isSome then (d, "trap") else
@@ -285,6 +302,11 @@ def step (st : DState) (ws : List String) : DState × String :=
     ({ st with wdStore := store },
       s!"{statusCode d.1} {showOptNat d.2.1} {showOptInt d.2.2.1} {showOptBool d.2.2.2}")
   | "c" :: rest => stepCanister st rest
+  | ["x", "decode", payload] =>
+    let bytes := if payload == "-" then [] else hexToBytes payload
+    match Btc.TxCodec.decodeExact bytes with
+    | none => (st, "reject")
+    | some t => (st, s!"accept reencodes={if Btc.TxCodec.encodeTx t == bytes then 1 else 0}")
   | ["t", ep, status, nh, body, parsed] => (st, stepTransform ep status nh body parsed)
   | ["b", "validate", blk] =>
     match State.validateBody (parseBlock blk) with
